@@ -590,12 +590,14 @@ func (a *array) getLen() uintptr {
 }
 
 func (a *array) next(i int64) (next int64, v Value, ok bool) {
-	ok = a != nil && 0 <= i && i <= int64(a.len)
+	// The index may be beyond a.len if the field was cleared after it was
+	// reached by a traversal (which is allowed).
+	ok = a != nil && 0 <= i && i <= int64(len(a.values))
 	if !ok {
 		return
 	}
 	for {
-		if i == int64(a.len) {
+		if i >= int64(a.len) {
 			return
 		}
 		v = a.values[i]
